@@ -294,6 +294,10 @@ func (r *runner) exec(bin string, plan []StepPlan) ([]Event, string) {
 		cmd.Process.Kill()
 		return nil, "watchdog: driver timed out"
 	}
+	{
+		h := sha256.Sum256(so.Bytes())
+		r.logf("driver run: %d steps, history digest %s", len(plan), hex.EncodeToString(h[:8]))
+	}
 	r.st.Execs.Add("driver_processes", 1)
 	r.st.Execs.Add("injector_executions", len(plan))
 	r.out.Execs += len(plan)
